@@ -18,9 +18,17 @@ pub struct TextItem {
 const PAYLOADS: &[&str] = &["()", "String", "crate::Tok", "std::vec::Vec<u8>", "Option<Box<i32>>", "a::b::C<d::E, F<G>>"];
 
 fn valid_grammar(rng: &mut Rng, collide: usize) -> Grammar {
-    let cfg = gen::accepted_family(rng);
+    let mut side = gen::side_stream(rng, 0x7e57_5);
+    let mut cfg = gen::accepted_family(rng);
+    if side.chance(1, 16) && cfg.rules.len() <= 40 {
+        gen::pad_symbols(&mut cfg, &mut side);
+    }
     let payload = *rng.pick(PAYLOADS);
-    gen::decorate(&cfg, rng, DecoOpts { collide_pct: collide, unreachable: true, payload, shuffle: true })
+    let mut g = gen::decorate(&cfg, rng, DecoOpts { collide_pct: collide, unreachable: true, payload, shuffle: true });
+    if side.chance(1, 10) {
+        gen::confusable_names(&mut g, &mut side);
+    }
+    g
 }
 
 fn violation_extra(g: &Grammar, k: usize, rng: &mut Rng) -> String {
